@@ -116,8 +116,12 @@ func (vc *VC) initState() *State {
 	sort.Strings(gnames)
 	for _, k := range gnames {
 		g := vc.eng.cs.Ghosts[k]
-		if hv, _, _ := vc.ghostHV(pkg, g.Name); hv != "" {
-			vc.heapGet(st, hv)
+		if hv, sort, _ := vc.ghostHV(pkg, g.Name); hv != "" {
+			h := vc.heapGet(st, hv)
+			if sort == SRef {
+				// a reference held by a ghost variable at entry designates an existing object
+				vc.assume("(< (rid (select " + h + " nil)) alloc0)")
+			}
 		}
 	}
 	return st
@@ -162,6 +166,7 @@ func (vc *VC) verifyTop(fn *ssa.Function, c *Contract) {
 	}
 	vc.oldState = st.clone()
 	res, exit := vc.execFunc(fn, c, args, nil, st, true)
+	vc.checkPanicExits(f0, c)
 	if exit == nil {
 		if c.EnsuresPanic {
 			// no path reaches a return: the refusal holds by construction (recorded
